@@ -37,9 +37,14 @@ func (s *barrierStore) Set(key string, val []byte, _ time.Duration) error {
 	s.mu.Unlock()
 	return nil
 }
-func (s *barrierStore) Delete(key string) error { s.mu.Lock(); delete(s.m, key); s.mu.Unlock(); return nil }
-func (s *barrierStore) Reset() error            { return nil }
-func (s *barrierStore) Close() error            { return nil }
+func (s *barrierStore) Delete(key string) error {
+	s.mu.Lock()
+	delete(s.m, key)
+	s.mu.Unlock()
+	return nil
+}
+func (s *barrierStore) Reset() error { return nil }
+func (s *barrierStore) Close() error { return nil }
 
 // F13 (C14): the entry was fetched before the lock; two requests that both see it expired
 // removed the same heap slot twice.
@@ -79,5 +84,22 @@ func TestF13_CacheEntryFetchedOutsideLock(t *testing.T) {
 	}
 	if panics.Load() != 0 {
 		t.Fatalf("%d request(s) panicked: both saw the same expired entry and removed its heap slot twice", panics.Load())
+	}
+}
+
+// F34: a no-cache request for a live key re-stored the entry without taking the old one out of the
+// expiration heap: the bytes were counted twice and the orphan's eviction later deleted the live entry.
+func TestF34_NoCacheRefreshKeepsTheAccounting(t *testing.T) {
+	app := fiber.New()
+	n := 0
+	app.Use(cache.New(cache.Config{MaxBytes: 2, Expiration: time.Hour}))
+	app.Get("/:k", func(c fiber.Ctx) error { n++; return c.SendString("x") })
+	do(app, "GET", "/a")                              // stored: 1 byte
+	do(app, "GET", "/a", "Cache-Control", "no-cache") // refreshed: still 1 byte
+	do(app, "GET", "/b")                              // stored: 2 bytes, fits
+	before := n
+	rc := do(app, "GET", "/a")
+	if n != before || string(rc.Response.Header.Peek("X-Cache")) != "hit" {
+		t.Fatalf("/a is no longer cached after /b was stored (X-Cache=%q): two 1-byte entries fit into MaxBytes=2", rc.Response.Header.Peek("X-Cache"))
 	}
 }
